@@ -245,7 +245,11 @@ func (m *model) remove(route string) (string, []xstate.Violation, error) {
 			if after.config != before.config || after.clocks != before.clocks {
 				add("refused-removal-changes-state/"+route, "removal failed (%v) but config or clocks changed", rmErr)
 			}
-			if k, d := diffViews(before.full, after.full); k != "" {
+			k, d, _, err := m.changed(before.full, after.full, route != "rm-cache", "")
+			if err != nil {
+				return "", nil, err
+			}
+			if k != "" {
 				add("refused-removal-changes-cache:"+class(k)+"/"+route, "removal failed (%v) but observable %s: %s", rmErr, k, d)
 			}
 			return outcome, viol, nil
